@@ -123,7 +123,8 @@ def parseEnv (j : Json) : Except String Env := do
     strOf := fun i => (ex.find? (·.1 == i)).bind (·.2.2)
     keyErrorClass := keyErrorClass
     extractor := fun c => (ext.find? (·.1 == c)).map fun (_, fs, fl) => fun _ k =>
-      match fl.find? (·.1 == k) with
+      -- a mask entry with index 4294967295 means "on every call" (a permanently broken extractor)
+      match fl.find? (fun p => p.1 == k || p.1 == 4294967295) with
       | some (_, e) => .error (excOfId e)
       | none => .ok fs
     serialize := fun sid v k =>
